@@ -76,7 +76,7 @@ pub fn generate(rng: &mut Rng, n: usize, _thorough: bool) -> Vec<Value> {
     let mut v = vec![];
     for i in 0..n {
         let mut config = rand_config(rng, true);
-        config["url"] = hx(URLS[i % URLS.len()]);
+        config["url"] = if i % 3 == 2 { hx(&rand_url(rng)) } else { hx(URLS[(i - i / 3) % URLS.len()]) };
         let latest = *rng.pick(&[0u64, 1, 42, 123456789, u64::MAX]);
         let cup = json!({"latest": latest, "hist": (0..rng.below(3)).map(|k| latest.wrapping_add(k + 1)).collect::<Vec<_>>()});
         let napps = 1 + rng.below(3) as usize;
